@@ -2,6 +2,6 @@
 # run every claimed check (quick tier) and print one line each
 cd /verif
 for p in $(.venv/bin/python -c "import json; print(' '.join(c['property_id'] for c in json.load(open('MANIFEST.json'))['checks']))"); do
-  out=$(./check $p 2>&1); rc=$?
+  out=$(./check $p --tier ${TIER:-quick} 2>&1); rc=$?
   echo "$p rc=$rc $(echo "$out" | grep -E '^C[0-9]+ tier' | tail -1) $(echo "$out" | grep -E 'VIOLATION|CHECKER|undecided:' | head -3 | tr '\n' ' ')"
 done
